@@ -90,9 +90,9 @@ class TPCI(ABC):
             if control_flags == 1:
                 return TDisconnect()
         # numbered control
-        if control_flags == 0b10:
+        elif control_flags == 0b10:
             return TAck(sequence_number=sequence_number)
-        if control_flags == 0b11:
+        elif control_flags == 0b11:
             return TNak(sequence_number=sequence_number)
 
         raise ConversionError(f"Unknown TPCI {raw_tpci:#10b}.")
